@@ -1,4 +1,5 @@
 import DcmVerif.Generated.Code
+import DcmVerif.Proofs.Stack
 import DcmVerif.Model.Stack
 import DcmVerif.Model.Wrap
 /-! The functions `tools/gen_code.py` translates from the Python source (`Generated/Code.lean`,
@@ -199,5 +200,249 @@ theorem chk_order_check_eq (files : List (Int × Int × Int)) (pos : List Int) (
   · rw [if_neg (by simp [ha])]
     simp only [h]
     rfl
+
+/-! ### the cell-wise check is the block-wise acceptance test of the model -/
+section cells
+open Stk
+
+theorem chunks_all (n : Nat) (Q : List α → Bool) : ∀ (k : Nat) (l : List α),
+    (chunks n k l).all Q = (List.range k).all fun b => Q ((l.drop (b * n)).take n)
+  | 0, l => by simp [chunks]
+  | k + 1, l => by
+    rw [List.range_succ_eq_map]
+    simp only [chunks, List.all_cons, List.all_map, chunks_all n Q k (l.drop n)]
+    congr 1
+    · simp
+    · congr 1
+      funext b
+      simp only [Function.comp, List.drop_drop]
+      congr 3
+      rw [Nat.succ_mul]; omega
+
+/-- a Boolean `all` over a range as a bounded quantifier -/
+theorem range_all_iff (k : Nat) (P : Nat → Bool) :
+    (List.range k).all P = true ↔ ∀ i, i < k → P i = true := by
+  simp [List.all_eq_true, List.mem_range]
+
+theorem take_drop_getElem? (l : List α) (a n j : Nat) (hj : j < n) :
+    ((l.drop a).take n)[j]? = l[a + j]? := by
+  simp [List.getElem?_take, hj, List.getElem?_drop]
+
+/-- all elements of a block carry the vector value of its first element -/
+theorem allSameV_iff (b : List F) :
+    allSameV b = true ↔ ∀ j, j < b.length → (b[j]?.map (·.v)) = (b[0]?.map (·.v)) := by
+  cases b with
+  | nil => simp [allSameV]
+  | cons x xs =>
+    simp only [allSameV, List.all_eq_true, beq_iff_eq, List.length_cons]
+    constructor
+    · intro h j hj
+      cases j with
+      | zero => rfl
+      | succ j' =>
+        have hj' : j' < xs.length := by omega
+        simp [List.getElem?_eq_getElem hj', h xs[j'] (List.getElem_mem hj')]
+    · intro h y hy
+      obtain ⟨i, hi, rfl⟩ := List.getElem_of_mem hy
+      have := h (i + 1) (by omega)
+      simpa [List.getElem?_eq_getElem hi] using this
+
+theorem idx_lt (a b n m : Nat) (ha : a < n) (hb : b < m) : a * m + b < n * m := by
+  have h1 : a * m + b < (a + 1) * m := by rw [Nat.succ_mul]; omega
+  exact Nat.lt_of_lt_of_le h1 (Nat.mul_le_mul_right m ha)
+
+theorem cellOk_iff (sorted : List F) (pos : List Int) (S T V v t s : Nat)
+    (hlen : sorted.length = S * T * V) (hpos : pos.length = S) (hv : v < V) (ht : t < T) (hs : s < S) :
+    cellOk (sorted.map key) pos S T v t s = true ↔
+      (sorted[v * T * S + t * S + s]?.map (·.v)) = (sorted[v * T * S]?.map (·.v)) ∧
+      (sorted[v * T * S + t * S + s]?.map (·.p)) = pos[s]? := by
+  have hb : v * T + t < V * T := idx_lt v t V T hv ht
+  have hi : v * T * S + t * S + s < sorted.length := by
+    have := idx_lt (v * T + t) s (V * T) S hb hs
+    rw [hlen]
+    calc v * T * S + t * S + s = (v * T + t) * S + s := by rw [Nat.add_mul]
+      _ < V * T * S := this
+      _ = S * T * V := by rw [Nat.mul_comm V T, Nat.mul_comm (T * V) S, Nat.mul_assoc]
+  have h0 : v * T * S < sorted.length := by
+    have : v * T * S ≤ v * T * S + t * S + s := by omega
+    omega
+  have hs' : s < pos.length := by omega
+  simp [cellOk, key, hi, h0, hs', List.getElem?_eq_getElem]
+
+theorem blockA_iff (sorted : List F) (S T V : Nat) (hlen : sorted.length = S * T * V) :
+    (chunks (T * S) V sorted).all allSameV = true ↔
+      ∀ v, v < V → ∀ j, j < T * S →
+        (sorted[v * (T * S) + j]?.map (·.v)) = (sorted[v * (T * S)]?.map (·.v)) := by
+  rw [chunks_all, range_all_iff]
+  constructor
+  · intro h v hv j hj
+    have hblk := (allSameV_iff _).1 (h v hv)
+    have hl : ((sorted.drop (v * (T * S))).take (T * S)).length = T * S := by
+      rw [List.length_take, List.length_drop, hlen]
+      have : (v + 1) * (T * S) ≤ V * (T * S) := Nat.mul_le_mul_right _ hv
+      have e : S * T * V = V * (T * S) := by rw [Nat.mul_comm S T, Nat.mul_comm]
+      rw [e]; rw [Nat.succ_mul] at this; omega
+    have := hblk j (by omega)
+    rw [take_drop_getElem? _ _ _ _ hj, take_drop_getElem? _ _ _ _ (by omega : 0 < T * S)] at this
+    simpa using this
+  · intro h v hv
+    rw [allSameV_iff]
+    intro j hj
+    have hjl : j < T * S := by
+      have := List.length_take_le (T * S) (sorted.drop (v * (T * S)))
+      omega
+    rw [take_drop_getElem? _ _ _ _ hjl, take_drop_getElem? _ _ _ _ (by omega : 0 < T * S)]
+    simpa using h v hv j hjl
+
+theorem blockB_iff (sorted : List F) (pos : List Int) (S T V : Nat) (hlen : sorted.length = S * T * V)
+    (hpos : pos.length = S) :
+    (chunks S (T * V) sorted).all (fun b => b.map (·.p) == pos) = true ↔
+      ∀ b, b < T * V → ∀ s, s < S → (sorted[b * S + s]?.map (·.p)) = pos[s]? := by
+  rw [chunks_all, range_all_iff]
+  have hl : ∀ b, b < T * V → ((sorted.drop (b * S)).take S).length = S := by
+    intro b hb
+    rw [List.length_take, List.length_drop, hlen]
+    have : (b + 1) * S ≤ (T * V) * S := Nat.mul_le_mul_right _ hb
+    have e : S * T * V = (T * V) * S := by rw [Nat.mul_assoc, Nat.mul_comm]
+    rw [e]; rw [Nat.succ_mul] at this; omega
+  constructor
+  · intro h b hb s hs
+    have := h b hb
+    simp only [beq_iff_eq] at this
+    have h2 := congrArg (fun l => l[s]?) this
+    simp only [List.getElem?_map] at h2
+    rw [take_drop_getElem? _ _ _ _ hs] at h2
+    exact h2
+  · intro h b hb
+    simp only [beq_iff_eq]
+    apply List.ext_getElem?
+    intro s
+    by_cases hs : s < S
+    · rw [List.getElem?_map, take_drop_getElem? _ _ _ _ hs]
+      exact h b hb s hs
+    · have h1 : (((sorted.drop (b * S)).take S).map (·.p)).length = S := by
+        rw [List.length_map]; exact hl b hb
+      rw [List.getElem?_eq_none (by omega), List.getElem?_eq_none (by omega)]
+
+/-- **the cell-wise condition of the translated `_chk_order` loop is the two order conjuncts of the
+    model's acceptance test** (block-wise: every vector block constant, every volume lists the sorted
+    distinct positions), for a sorted list of S·T·V files -/
+theorem cells_eq_chunks (sorted : List F) (pos : List Int) (S T V : Nat)
+    (hlen : sorted.length = S * T * V) (hpos : pos.length = S) :
+    ((List.range V).all fun v => (List.range T).all fun t => (List.range S).all fun s =>
+        cellOk (sorted.map key) pos S T v t s) =
+      ((chunks (T * S) V sorted).all allSameV &&
+       (chunks S (T * V) sorted).all (fun b => b.map (·.p) == pos)) := by
+  rw [Bool.eq_iff_iff, Bool.and_eq_true, blockA_iff sorted S T V hlen, blockB_iff sorted pos S T V hlen hpos,
+    range_all_iff]
+  constructor
+  · intro h
+    have hc : ∀ v t s, v < V → t < T → s < S →
+        (sorted[v * T * S + t * S + s]?.map (·.v)) = (sorted[v * T * S]?.map (·.v)) ∧
+        (sorted[v * T * S + t * S + s]?.map (·.p)) = pos[s]? := by
+      intro v t s hv ht hs
+      have h1 := (range_all_iff _ _).1 ((range_all_iff _ _).1 (h v hv) t ht) s hs
+      exact (cellOk_iff sorted pos S T V v t s hlen hpos hv ht hs).1 h1
+    constructor
+    · intro v hv j hj
+      have hS : 0 < S := by
+        rcases Nat.eq_zero_or_pos S with h0 | h0
+        · subst h0; simp at hj
+        · exact h0
+      have ht : j / S < T := (Nat.div_lt_iff_lt_mul hS).2 hj
+      have hs : j % S < S := Nat.mod_lt _ hS
+      have hj' : j = j / S * S + j % S := by rw [Nat.mul_comm]; exact (Nat.div_add_mod j S).symm
+      have := (hc v (j / S) (j % S) hv ht hs).1
+      have e : v * (T * S) + j = v * T * S + j / S * S + j % S := by
+        rw [Nat.mul_assoc, Nat.add_assoc, ← hj']
+      rw [e, Nat.mul_assoc] at *
+      rw [← Nat.mul_assoc]
+      simpa [Nat.mul_assoc] using this
+    · intro b hb s hs
+      have hT : 0 < T := by
+        rcases Nat.eq_zero_or_pos T with h0 | h0
+        · subst h0; simp at hb
+        · exact h0
+      have hv : b / T < V := (Nat.div_lt_iff_lt_mul hT).2 (by rwa [Nat.mul_comm] at hb)
+      have ht : b % T < T := Nat.mod_lt _ hT
+      have hb' : b = b / T * T + b % T := by rw [Nat.mul_comm]; exact (Nat.div_add_mod b T).symm
+      have := (hc (b / T) (b % T) s hv ht hs).2
+      have e : b * S + s = b / T * T * S + b % T * S + s := by
+        conv => lhs; rw [hb']
+        rw [Nat.add_mul]
+      rw [e]
+      exact this
+  · intro ⟨hA, hB⟩ v hv
+    rw [range_all_iff]
+    intro t ht
+    rw [range_all_iff]
+    intro s hs
+    rw [cellOk_iff sorted pos S T V v t s hlen hpos hv ht hs]
+    constructor
+    · have := hA v hv (t * S + s) (idx_lt t s T S ht hs)
+      have e : v * (T * S) + (t * S + s) = v * T * S + t * S + s := by
+        rw [Nat.mul_assoc, Nat.add_assoc]
+      rw [e, ← Nat.mul_assoc] at this
+      exact this
+    · have hb : v * T + t < T * V := by
+        have := idx_lt v t V T hv ht
+        rwa [Nat.mul_comm V T] at this
+      have := hB (v * T + t) hb s hs
+      rwa [Nat.add_mul] at this
+
+/-- **the model's acceptance test is what the translated Python does**: `get_shape`'s count checks
+    followed by `_chk_order`'s thorough check on the list the two sorts produce succeed exactly when
+    the model's `acceptB` holds, with the model's dimensions — for every list of files -/
+theorem source_accepts_iff (spacingOk : List Int → Bool) (files : List F) :
+    acceptB spacingOk files = true ↔
+      Py.get_shape_counts files.length (dimS files) (dimV files)
+          (spacingOk (distinctSorted (files.map (·.p)))) = .ok (dimS files, dimT files, dimV files) ∧
+      Py.chk_order_check ((chkSort (dimS files) (files.length / dimS files) files).map key)
+          (distinctSorted (files.map (·.p))) (dimS files) (dimT files) (dimV files) = .ok () := by
+  rw [acceptB_counts, get_shape_counts_eq, chk_order_check_eq]
+  by_cases hc : countsOk files.length (dimS files) (dimV files) (spacingOk (distinctSorted (files.map (·.p)))) = true
+  · -- the counts give the length of the list
+    have hc' := hc
+    simp only [countsOk, Bool.and_eq_true, decide_eq_true_eq] at hc'
+    obtain ⟨⟨⟨⟨hn0, _⟩, h1⟩, _⟩, h2⟩ := hc'
+    have hV : 0 < dimV files := by
+      rcases Nat.eq_zero_or_pos (dimV files) with h0 | h0
+      · rw [h0, Nat.mod_zero] at h2
+        have e1 : files.length = dimS files * (files.length / dimS files) :=
+          (Nat.mul_div_cancel' (Nat.dvd_of_mod_eq_zero h1)).symm
+        rw [h2, Nat.mul_zero] at e1
+        exact absurd e1 hn0
+      · exact h0
+    have hn : files.length = dimS files * dimT files * dimV files := by
+      have e1 : files.length = dimS files * (files.length / dimS files) := (Nat.mul_div_cancel' (Nat.dvd_of_mod_eq_zero h1)).symm
+      have e2 : files.length / dimS files = dimV files * dimT files := by
+        unfold dimT; exact (Nat.mul_div_cancel' (Nat.dvd_of_mod_eq_zero h2)).symm
+      rw [Nat.mul_assoc, Nat.mul_comm (dimT files)]
+      rw [← e2]; exact e1
+    have hvols : files.length / dimS files = dimT files * dimV files := by
+      have e2 : files.length / dimS files = dimV files * dimT files := by
+        unfold dimT; exact (Nat.mul_div_cancel' (Nat.dvd_of_mod_eq_zero h2)).symm
+      rw [e2, Nat.mul_comm]
+    have hlen : (chkSort (dimS files) (files.length / dimS files) files).length =
+        dimS files * dimT files * dimV files := by
+      have hp := chkSort_perm (dimS files) (files.length / dimS files) files
+        (by rw [hvols, ← Nat.mul_assoc]; exact hn)
+      rw [hp.length_eq]; exact hn
+    have hcells := cells_eq_chunks (chkSort (dimS files) (files.length / dimS files) files)
+      (distinctSorted (files.map (·.p))) (dimS files) (dimT files) (dimV files) hlen rfl
+    rw [hcells, hc, hvols]
+    simp only [Bool.true_and, if_true, true_and]
+    cases hb : ((chunks (dimT files * dimS files) (dimV files)
+        (chkSort (dimS files) (dimT files * dimV files) files)).all allSameV &&
+      (chunks (dimS files) (dimT files * dimV files)
+        (chkSort (dimS files) (dimT files * dimV files) files)).all
+        fun b => b.map (·.p) == distinctSorted (files.map (·.p))) with
+    | false => simp [hb]
+    | true => simp [hb]; exact Nat.mul_div_cancel _ hV
+  · have hc0 : countsOk files.length (dimS files) (dimV files) (spacingOk (distinctSorted (files.map (·.p)))) = false := by
+      simpa using hc
+    simp [hc0]
+
+end cells
 
 end Src
